@@ -205,6 +205,21 @@ PROPS = {
         "level_note": VERUS_TRUST + "shims (assumed std contracts) for rsplit_once(char), rsplit_once(\"nb\"), parse::<i64>, String::from, "
                       "Option::or, rfind(char); Summary::pkgbase()/pkgversion() are proved (unit summary) to return base_of/version_of of PKGNAME exactly when both parts are non-empty.",
     },
+    "C20": {
+        "units": ["pkgdb"],
+        "design_ref": "DESIGN.md section 8 / C20",
+        "replay": "pkgdb",
+        "level_text": "Unbounded proof on the real functions over an uninterpreted file system: PkgDB::next (an unbounded `loop`, termination by the "
+                      "remaining directory entries) skips every entry that is a plain file or lacks +COMMENT/+CONTENTS/+DESC and yields, for the "
+                      "first valid one, a Package whose pkgname is the directory name and whose pkgbase/pkgversion are the parts before/after "
+                      "its last '-' (whole name / empty for a name without '-'), InvalidData for a non-UTF-8 name; is_valid_pkgdir == the three "
+                      "existence tests; Package::read_metadata reads <dir>/<+FILE>; MetadataEntry::to_filename/from_filename are proved to be "
+                      "mutually inverse over the 14 names (lemma_metadata_names_bijective); Metadata::is_valid == comment, contents and "
+                      "description all non-empty.",
+        "level_note": VERUS_TRUST + "'each sub-directory exactly once' is std::fs::ReadDir's contract (modelled as a sequence of remaining entries); "
+                      "Path::is_file / join().exists() / read_to_string / DirEntry accessors are world functions; PkgDB::open and the (unimplemented) "
+                      "Database back end are not under contract.",
+    },
 }
 
 NOT_APPLICABLE = {
